@@ -4,7 +4,7 @@ CONSTANTS
   Focus = "wrap"
   WModels = {"sphere", "cylinder"}
   QSets = {"q1", "qxy"}
-  Requests = {"mono", "pd", "pd2", "empty"}
+  Requests = {"mono", "pd", "pdn", "arr", "empty"}
   Slots = {"k1", "k2", "k3"}
   Wrappers = {"w1", "w2"}
   MaxOps = 30
